@@ -106,11 +106,17 @@ def expressions(draw, depth=2, max_items=4):
 # ---- builder --------------------------------------------------------------------------------------------------------------
 
 
-def build(expr):
-    """Fresh real operator instances for the expression."""
+_SHARED: dict = {}
+
+
+def build(expr, _top=True):
+    """Fresh real operator instances for the expression. ``smapper`` nodes flagged ``share`` with equal name and
+    hyper-parameters are made from one and the same builder object (an operator instantiated repeatedly with one builder)."""
+    if _top:
+        _SHARED.clear()
     op = expr['op']
     if op == 'seq':
-        items = [build(e) for e in expr['items']]
+        items = [build(e, False) for e in expr['items']]
         out = items[0]
         for nxt in items[1:]:
             out = out >> nxt
@@ -122,6 +128,11 @@ def build(expr):
         mappers = [(actors.St if m['kind'] == 'st' else actors.Fn).builder(m['name'], 1, 1, **m['hp']) for m in expr['mappers']]
         return payload.MapReduce(*mappers, reducer=actors.Fn.builder(expr['name'], len(mappers), 1))
     if op == 'smapper':
+        if expr.get('share'):
+            key = (expr['name'], repr(sorted(expr['hp'].items())))
+            if key not in _SHARED:
+                _SHARED[key] = actors.St.builder(expr['name'], 1, 1, **expr['hp'])
+            return ops.StatefulMapper(_SHARED[key])
         return ops.StatefulMapper(actors.St.builder(expr['name'], 1, 1, **expr['hp']))
     if op == 'twice':
         return ops.Twice(actors.Fn.builder(expr['name'], 2, 1))
@@ -137,7 +148,7 @@ def build(expr):
         n = expr['nsplits']
         name = expr['name']
         return ensemble.FullStack(
-            *[build(b) for b in expr['bases']],
+            *[build(b, False) for b in expr['bases']],
             splitter=actors.St.builder(f'{name}.cv', 1, 2 * n),
             nsplits=n,
             appender=actors.Fn.builder(f'{name}.app', len(expr['bases']), 1),
